@@ -482,6 +482,31 @@ def gov_seeded(seed_, n):
     return [g.request() for _ in range(n)]
 
 
+def gov_compact(x):
+    """Replay files keep requests small: a long hex text that repeats one byte is stored as {hexfill, n}."""
+    if isinstance(x, dict):
+        if isinstance(x.get("hex"), str) and len(x["hex"]) > 2000 and x["hex"] == x["hex"][:2] * (len(x["hex"]) // 2):
+            y = {k: v for k, v in x.items() if k != "hex"}
+            y["hexfill"] = x["hex"][:2]
+            return y
+        return {k: gov_compact(v) for k, v in x.items()}
+    if isinstance(x, list):
+        return [gov_compact(v) for v in x]
+    return x
+
+
+def gov_expand(x):
+    if isinstance(x, dict):
+        if "hexfill" in x:
+            y = {k: v for k, v in x.items() if k != "hexfill"}
+            y["hex"] = x["hexfill"] * x["n"]
+            return y
+        return {k: gov_expand(v) for k, v in x.items()}
+    if isinstance(x, list):
+        return [gov_expand(v) for v in x]
+    return x
+
+
 def gov_replay(work, cases):
     inp = os.path.join(work, "gov_requests.ndjson")
     trp = os.path.join(work, "gov_trace.ndjson")
